@@ -43,7 +43,7 @@ def check(case, st):
     const = all(not k for k in D0)
     if len(D0) - (() in D0) >= 2:
         st.nontrivial += 1
-    conts = list(gen.SPIN_CONTAINERS if spin else gen.BOOL_CONTAINERS) + ["dictperm"]
+    conts = list(gen.SPIN_CONTAINERS if spin else gen.BOOL_CONTAINERS) + ["dictperm", "dictrep"]
     for cont in conts:
         if cont in gen.DEG2 and deg > 2:
             continue
@@ -51,11 +51,18 @@ def check(case, st):
             D = gen.relabel(D0, sch, N)
             labels = gen.labels_for(sch, N)
             st.extra["models_built"] = st.extra.get("models_built", 0) + 1
-            M = {tuple(reversed(k)): v for k, v in D.items()} if cont == "dictperm" else gen.build(cont, D)
+            if cont == "dictperm":
+                M = {tuple(reversed(k)): v for k, v in D.items()}
+            elif cont == "dictrep":
+                # raw dict whose keys repeat labels (same function: x^2 = x, z^2 = 1); the *_value functions accept these
+                from .c04 import spell
+                M = spell(D, "dictrep", spin)
+            else:
+                M = gen.build(cont, D)
             table = rp.tt(D, labels, spin)
             tmin, tmax = float(table.min()), float(table.max())
             fns = ["approximate_puso_extrema" if spin else "approximate_pubo_extrema"]
-            if deg <= 2:
+            if deg <= 2 and cont != "dictrep":
                 fns.append("approximate_quso_extrema" if spin else "approximate_qubo_extrema")
             for fn in fns:
                 st.transitions += 1
@@ -103,7 +110,7 @@ def check(case, st):
 
 def run(ctx):
     ctx.bounds = {"n": N, "coefs": COEFS, "offsets": OFFSETS, "max_terms": 3 if ctx.quick else 4, "flip_probabilities": PROBS,
-                  "containers": "all of DESIGN 2.4 + permuted raw dicts", "schemes": list(gen.LABELLED_SCHEMES)}
+                  "containers": "all of DESIGN 2.4 + permuted raw dicts + raw dicts with repeated labels", "schemes": list(gen.LABELLED_SCHEMES)}
     ctx.rule = "case = (kind, polynomial); each is checked in every container x label scheme x function; non-trivial = at least two non-constant terms"
     ctx.assumptions = ["models are refreshed (anneal_temperature_range reads the cached variable set)"]
     explore_cases(ctx, gen_cases(ctx.tier), check, label="C15")
